@@ -196,6 +196,9 @@ def run(ctx):
     # the hand-written string enums with a separate parser (JoinRule) or several tables (MessageType::new / Deserialize / msgtype()) are covered by the
     # table-agreement rule of C18: each specified spelling maps to its dedicated variant on every path
     _C18.string_dispatch_rule(ctx, w, "C19.string-dispatch")
+    # the generated Any*Event deserializers classify the `type` string a second time (literal and wildcard-prefix arms): they agree with the event
+    # type enums' own tables, so that a string the type enum keeps as custom is not claimed by a dedicated arm (shared with C18)
+    _C18.dispatch_rule(ctx, w, "C19.dispatch")
     ctx.assumptions += ["hand-written string enums (UriAction, VoipVersionId, TagName, JoinRule, ...) are not covered by the template rule",
                         "_Custom cannot be constructed with a known spelling from outside the crate (PrivOwnedStr is private: compile_fail witness in /verif/witnesses)"]
     ctx.samples += [{"enum": "MembershipState", "F": {"join": "Join"}, "G": {"Join": "join"}},
